@@ -44,9 +44,9 @@ Proof.
   intros Hs. unfold set_focus_complete.
   destruct (pend s) as [| |cf old]; [now intros [= <-] | now apply pres_first_selectable |].
   cbn [items focus set_pend].
-  destruct (nthz (items s) (focus s)) as [neww|]; [|discriminate].
+  destruct (nthz (items s) (focus s)) as [neww|]; [|intros [= <-]; now apply viewok_set_pend].
   destruct (old =? focus s); [intros [= <-]; now apply viewok_set_pend|].
-  destruct (nthz (items s) old); [|discriminate].
+  destruct (nthz (items s) old); [|intros [= <-]; now apply viewok_set_pend].
   destruct (visible _ _ _ _ _ _ _) as [[v|]|]; [| discriminate | discriminate].
   destruct (find_above _ _ _); [apply pres_change|].
   destruct (find_below _ _ _); [apply pres_change|].
@@ -248,29 +248,4 @@ Proof.
   { constructor; assumption. }
   exists p. rewrite (render_no_pending _ _ _ Hp), Er. splits; try assumption; try lia; try reflexivity.
   intros cy Hcy. now destruct (Hcur cy Hcy).
-Qed.
-
-(* the statement "render never raises after any history" is false when a set_focus request is
-   still pending and its old position has been deleted meanwhile *)
-Definition render_any_history_full_stmt : Prop :=
-  forall ops s s' out maxrow fflag,
-    ViewOK s -> Forall op_ok ops -> In (Ok (s', out)) (run s ops) ->
-    heights_ok (items s') -> 1 <= maxrow ->
-    (forall w, In w (items s') -> cursor_ok w) ->
-    exists s'' win cur, render s' maxrow fflag = Ok (s'', (win, cur)).
-
-Lemma stale_pending_refutes : ~ render_any_history_full_stmt.
-Proof.
-  intros H.
-  set (it := {| i_rows := 1; i_sel := true; i_cy := None |}).
-  set (s := {| items := [it; it; it; it; it]; focus := 4; off := 0; inum := 0; iden := 1; pend := PNone |}).
-  set (s' := {| items := [it; it]; focus := 0; off := 0; inum := 0; iden := 1; pend := PSet CNone 4 |}).
-  destruct (H [OSetFocus 0 CNone; OItems [it; it] 0] s s' OutState 3 true) as (s'' & win & cur & E).
-  - unfold ViewOK. cbn. lia.
-  - repeat constructor.
-  - cbn. right. left. reflexivity.
-  - repeat constructor; cbn; lia.
-  - lia.
-  - intros w Hin cy Hcy. destruct Hin as [<-|[<-|[]]]; discriminate.
-  - vm_compute in E. discriminate.
 Qed.
